@@ -1,6 +1,6 @@
 """C11 — graph iteration stays well defined while the graph is edited.
 
-Decided by: Coq theorems (coq/theories/C11/Property.v, 21 theorems, all "Closed under the global context")
+Decided by: Coq theorems (coq/theories/C11/Property.v, 27 theorems, all "Closed under the global context")
 about the hand-written executable model coq/theories/C11/Model.v of onnx_ir._linked_list.DoublyLinkedSet and of
 its generator-based iterators, tied to the code on every run by a correspondence check on schedules
 (interleavings of next() calls of several forward/backward iterators with edits and queries) against the real
@@ -34,9 +34,20 @@ THEOREMS (all proved for all states / schedules, no bounds):
                                            -> yielded (next), before -> skipped, for both directions; general gap law
   C11_remove_law, C11_remove_current_resumes_at_successor, C11_move_current_resumes_at_successor
   C11_cursors_independent                  iterator i of a multi-iterator schedule = the same iterator alone
-  Nothing is `_partial`.  What is NOT a Coq theorem: RecursiveGraphIterator (Python specification only, below)
-  and the bridge "l_ins at index" for insertions far from the cursor is stated positionally
-  (C11_insert_position_law) rather than per API call.
+  RecursiveGraphIterator (Model.v `rnext`: stack of frames (graph, flat cursor, pending subgraphs) over a forest
+  gid -> st, lazy entry of subgraph cursors, enter/exit callbacks as trace events — the code calls them twice
+  per subgraph —, forward and reverse through `subs`), ProofsR.v / ProofsR2.v:
+  C11_rec_step_safe, C11_rec_edit_safe      next() never stuck/raises, yielded node belongs to the graph of the
+                                           frame on top at that moment, edits keep every frame valid
+  C11_rec_step_law, C11_rec_terminates      on an acyclic forest next() pops the head of the pre-order future
+                                           `rfut`; |rfut|+1 calls finish the traversal once edits stop
+  C11_rec_schedule_law,                     every interleaving with edits of any graph: U-yields ++ U-future is
+  C11_rec_untouched_once_in_preorder        invariant when no edit touches a U node or a node with a U node
+                                           underneath (edit_clear), nodes keep their graph (`home`), nesting is
+                                           acyclic (sub_rank) => untouched nodes exactly once in pre-order
+  Nothing is `_partial`.  Scope notes: the `recursive` predicate and RecursiveGraphIterator.__iter__ (which
+  restarts the traversal) are not modelled; node attributes are fixed during a schedule; insertions far from
+  the cursor are stated positionally (C11_insert_position_law) rather than per API call.
 READINGS of the English (weaker reading taken by the oracle where ambiguous):
   * "touched" = removed, inserted or moved by an edit (being the anchor of insert_before/after does not touch).
   * position of an iterator whose current node was removed = the gap where it was; a node later inserted
@@ -51,8 +62,10 @@ TIE (measured in evidence): random state-aware schedules (dls/graph/function kin
   event inside Coq and compares result, list(g), list(reversed(g)), len after EVERY event; exhaustive small
   scopes: Coq model on the tree of ALL schedules of <= 3 events (quick; 4 thorough) over 3 elements, 26-event
   alphabet, 2 iterators, 3 initial configurations; oracle on all schedules one event deeper (457k quick).
-  RecursiveGraphIterator: nested If-like graphs (GRAPH and GRAPHS attributes, depth 2), oracle_rec composes
-  plain-list cursors into the depth-first traversal and checks every yield.
+  RecursiveGraphIterator: nested If-like graphs (GRAPH and GRAPHS attributes, depth 2, forward and reverse,
+  mixed with flat iterators on the subgraphs): every schedule goes through oracle_rec (plain-list cursors
+  composed into the depth-first traversal) AND through the Coq model `ragree` (yield, enter/exit callback trace
+  and all six node lists after every event).
 MODELLED NOT VERIFIED: generator semantics; None values (TypeError before any mutation); owning_list check (a
   single list: boxes reachable from its root are its own); the id->box dict (derived: find_box); slices.
 OBSERVATION outside C11 (C01/C06 family, not reported here): Graph.insert_after(absent_anchor, [n]) leaves
@@ -69,12 +82,15 @@ with a shrunk concrete replay; "coq" = the Coq correspondence (random and/or exh
   m5 "same value -> no-op" rule removed from _insert_one_after            oracle: Function.sort() on one node loses it ; coq + tree
   m6 erase() points the erased box's next at the root                     oracle: iterator stops early after
                                                                           remove-current ; coq + tree
-  m7 RecursiveGraphIterator iterates tuple(graph) (snapshot)              oracle_rec only (traversal is not in Coq)
+  m7 RecursiveGraphIterator iterates tuple(graph) (snapshot)              oracle_rec (at the time; the recursive Coq
+                                                                          model was added afterwards, see below)
   m8 __reversed__ reads box.prev before yielding                          oracle: reversed iterator misses
                                                                           insert_before(current) ; coq + tree
   m9 moving a present value re-points its old box at the new place        oracle: after sort the iterator does not
      (iteration "follows" the moved node)                                 resume at the original successor ; coq + tree
 Their shrunk witnesses are kept in corpus/C11/1x-*.json.  Unchanged tree: quick exits 0 for VERIF_SEED=0,1,2,3.
+After the recursive Coq model was added: seeded/C11-m3 (reverse recursive traversal walks graph[::-1]) gives
+VIOLATION replays from oracle_rec AND broken `correspondence:RecursiveGraphIterator-model` (3 diverging traces).
 """
 
 from __future__ import annotations
@@ -748,12 +764,17 @@ class RecImpl:
             self.objs[h] = mk(h)
         self.graphs[0] = G(0)
         self.back = {id(o): h for h, o in self.objs.items()}
+        self.gback = {id(g): k for k, g in self.graphs.items()}
+        self.cbs = []           # callback trace of the current event: 2*gid = enter, 2*gid+1 = exit
 
     def do(self, e):
         O, op = self.objs, e[0]
+        self.cbs = []
         try:
             if op == "rnew":
-                self.iters.append(self.RGI(self.graphs[0], reverse=not e[1]))
+                self.iters.append(self.RGI(self.graphs[0], reverse=not e[1],
+                                           enter_graph=lambda g: self.cbs.append(2 * self.gback[id(g)]),
+                                           exit_graph=lambda g: self.cbs.append(2 * self.gback[id(g)] + 1)))
                 return ("ok", None)
             if op == "fnew":
                 g = self.graphs[e[1]]
@@ -791,14 +812,15 @@ def run_rec(sched):
             with _limit():
                 r = im.do(e)
                 snap = im.snapshot()
-            out.append({"res": list(r), "lists": snap})
+            out.append({"res": list(r), "lists": snap, "cbs": list(im.cbs)})
         except _Hang:
             global HANGS
             HANGS += 1
-            out.append({"res": ["raise", "Hang"], "lists": {str(g): [] for g in REC_POOLS}})
+            out.append({"res": ["raise", "Hang"], "lists": {str(g): [] for g in REC_POOLS}, "cbs": []})
             break
         except Exception as ex:  # noqa: BLE001
-            out.append({"res": ["raise", "Observer" + common.exn_name(ex)], "lists": {str(g): [] for g in REC_POOLS}})
+            out.append({"res": ["raise", "Observer" + common.exn_name(ex)], "lists": {str(g): [] for g in REC_POOLS},
+                        "cbs": []})
             break
     return out
 
@@ -910,6 +932,42 @@ def gen_rec(rng, steps):
             else:
                 events.append(["ed", gid, "ins_before", rng.choice(pool), xs])
     return {"kind": "rec", "inits": inits, "events": events}
+
+
+REC_SUBS_F = "[(1,[1;2]);(11,[3]);(2,[4;5])]"
+REC_SUBS_B = "[(1,[1;2]);(11,[3]);(2,[5;4])]"
+
+
+def rec_case_term(sched, obs):
+    rows = []
+    for e, o in zip(sched["events"], obs):
+        op = e[0]
+        if op == "rnew":
+            ev = f"RNew {'true' if e[1] else 'false'}"
+        elif op == "fnew":
+            ev = f"FNew {e[1]} {'true' if e[2] else 'false'}"
+        elif op == "step":
+            ev = f"RStep {e[1]}"
+        else:
+            g, sub = e[1], e[2]
+            ed = {"append": lambda: f"Append {e[3]}", "remove": lambda: f"Remove {e[3]}",
+                  "ins_after": lambda: f"InsAfter {e[3]} {_nl(e[4])}",
+                  "ins_before": lambda: f"InsBefore {e[3]} {_nl(e[4])}"}[sub]()
+            ev = f"REdit {g} ({ed})"
+        r = o["res"]
+        if r[0] == "ok":
+            rt = "RN" if r[1] is None else f"(RY {r[1]})"
+        else:
+            rt = f"(RE {r[1] if r[1] in common._EXN_NAMES else 'OtherError'})"
+        ls = "[" + ";".join(_nl(o["lists"][str(g)]) for g in sorted(REC_POOLS)) + "]"
+        rows.append(f"REV ({ev}) {rt} {_nl(o.get('cbs', []))} {ls}")
+    inits = "[" + ";".join(_nl(sched["inits"][str(g)]) for g in sorted(REC_POOLS)) + "]"
+    return f"RCASE {REC_SUBS_F} {REC_SUBS_B} {inits}\n  [" + ";\n   ".join(rows) + "]"
+
+
+def rec_cases_file(cases) -> str:
+    return (CASE_HEADER + "Definition cases := [\n " + ";\n ".join(rec_case_term(s, o) for s, o in cases)
+            + "].\nEval vm_compute in (failing ragree cases).\n")
 
 
 # =========================================================================== running, shrinking, reporting
@@ -1078,10 +1136,11 @@ def load_corpus():
     return out
 
 
-def coq_compare(ck, cases, tag):
+def coq_compare(ck, cases, tag, printer=None):
     """-> list of (sched, obs) whose trace the Coq model does not reproduce"""
+    printer = printer or cases_file
     chunks = [cases[i:i + 25] for i in range(0, len(cases), 25)]
-    texts = [(f"{tag}_{i}", cases_file(ch)) for i, ch in enumerate(chunks)]
+    texts = [(f"{tag}_{i}", printer(ch)) for i, ch in enumerate(chunks)]
     res = ck.coq_eval_many(texts, timeout=900)
     out = []
     for (name, _), (rc, o), ch in zip(texts, res, chunks):
@@ -1095,10 +1154,11 @@ def coq_compare(ck, cases, tag):
 def first_divergence(ck, sched, obs):
     """shortest prefix of the schedule the model does not reproduce (for the report)"""
     lo, hi = 1, len(sched["events"])
+    printer = rec_cases_file if sched["kind"] == "rec" else cases_file
     while lo < hi:
         mid = (lo + hi) // 2
         s2 = dict(sched, events=sched["events"][:mid])
-        if ck.coq_failing(cases_file([(s2, obs[:mid])]), "bisect"):
+        if ck.coq_failing(printer([(s2, obs[:mid])]), "bisect"):
             hi = mid
         else:
             lo = mid + 1
@@ -1114,9 +1174,9 @@ def run(ck) -> None:
              "ir.Function / RecursiveGraphIterator, the Coq literal printer, the translation of Graph.sort / "
              "Graph.remove(iterable) into list-level edits (spec_sort)",
              "hand-written model C11/Model.v of _linked_list.py tied by correspondence only (no translation)",
-             "modelled not verified: CPython generator semantics (Fresh/Parked/Done, b.next read at resume time); "
-             "RecursiveGraphIterator is specified in Python only (oracle_rec), not in Coq; "
-             "Graph.sort order (C12) enters as the permutation passed to extend")
+             "modelled not verified: CPython generator semantics (Fresh/Parked/Done, b.next read at resume time, "
+             "yield from = a stack of generators); the `recursive` predicate of RecursiveGraphIterator and its "
+             "__iter__ restart are outside the model; Graph.sort order (C12) enters as the permutation passed to extend")
     ck.assumptions += ["values are hashable and never None; one DoublyLinkedSet per schedule (no cross-list moves)",
                        "CPython generators: a suspended generator resumes after its yield; exhausted generators stay exhausted"]
     ck.coverage["rule"] = ("non-trivial = a next() call whose iterator is parked on an erased box (tombstone chain), "
@@ -1138,7 +1198,7 @@ def run(ck) -> None:
                                            universe=rng.choice([4, 6, 7])))
     for i in range(n_rand * 2):
         scheds.append(gen_rec(rng, rng.choice([30, 60])))
-    cases, oracle_failed = [], []
+    cases, rcases, oracle_failed = [], [], []
     for s in scheds:
         if HANGS >= 3 or len(oracle_failed) >= 25:
             ck.notes.append("stopped generating early: the implementation already fails the oracle "
@@ -1154,8 +1214,10 @@ def run(ck) -> None:
             oracle_failed.append(s)
         if s["kind"] != "rec":
             cases.append((s, obs))
+        else:
+            rcases.append((s, obs))
         _coverage(ck, s, obs)
-    ck.coverage["traces_validated_against_impl"] = len(cases)
+    ck.coverage["traces_validated_against_impl"] = len(cases) + len(rcases)
     for s in scheds[:2] + [x for x in scheds if x["kind"] == "rec"][:1]:
         ck.sample({"kind": s["kind"], "init": s.get("init", s.get("inits")), "events": s["events"][:12]})
     mism = []
@@ -1167,6 +1229,16 @@ def run(ck) -> None:
         k = first_divergence(ck, s, obs)
         ck.broken("correspondence:DoublyLinkedSet-model",
                   json.dumps({"schedule": dict(s, events=s["events"][:k]), "impl_observation": obs[k - 1]}))
+    rmism = []
+    try:
+        rmism = coq_compare(ck, rcases, "rcases", rec_cases_file)
+    except RuntimeError as e:
+        ck.broken("correspondence:rec-case-files", str(e))
+    for s, obs in rmism[:3]:
+        k = first_divergence(ck, s, obs)
+        ck.broken("correspondence:RecursiveGraphIterator-model",
+                  json.dumps({"schedule": dict(s, events=s["events"][:k]), "impl_observation": obs[k - 1]}))
+    mism = mism + rmism
 
     # ---- 2. exhaustive small scopes: Coq model on the tree of all schedules; oracle one level deeper
     depth = 3 if not ck.thorough else 4
@@ -1193,7 +1265,7 @@ def run(ck) -> None:
                                   "events": [["new", f] for f in cursors] + path_of(p, first, elems)})
     for s in tree_mism[:3]:
         ck.broken("correspondence:DoublyLinkedSet-model(exhaustive)", json.dumps(s))
-    scopes = [([1, 2, 3], [True, False], depth + 1, 45 if not ck.thorough else 480)]
+    scopes = [([1, 2, 3], [True, False], depth + 1, 25 if not ck.thorough else 480)]
     if ck.thorough:
         scopes += [([1, 2], [True, True], depth, 120), ([1, 2, 3], [False, False], depth, 120)]
     for init, cursors, d, budget in scopes:
